@@ -33,6 +33,17 @@ RULE = ("values from grammar V3 (exhaustive) + all single C0/boundary code point
 ASSUMPTIONS = ["integers restricted to [-2^63, 2^64-1]; strings contain no lone surrogates; no NaN/Infinity (not JSON)"]
 
 
+def fast_json_loads_bytes(raw: bytes, handle: str):
+    """What the bytes of a file written through a text handle say when read as JSON text in that handle's encoding
+    (separators and escapes may differ between the backends; the value may not)."""
+    import json as _json
+    enc = handle.split("/")[0]
+    try:
+        return _json.loads(raw.decode(enc))
+    except Exception as e:  # noqa
+        return ("undecodable", type(e).__name__)
+
+
 def values_for(ctx) -> List[Any]:
     rng = ctx.sub_rng("c17")
     vals: List[Any] = list(gen.grammar(3 if ctx.tier == "thorough" else 2))
@@ -151,6 +162,23 @@ def run(ctx):
                     raw, dec = fr[1]
                     if tagged(dec) != tv:
                         ctx.violation("file_round_trip", f"{b}: load(dump(v)) on a {key} gave {dec!r}", case)
+            fh = first[b].get("file_handles", [None] * (i + 1))[i] if i < len(first[b].get("file_handles", [])) else None
+            if fh is not None and b == "orjson":
+                fo = first["stdlib"]["file_handles"][i] or {}
+                for hk, r in fh.items():
+                    ctx.count("file_handle_round_trips")
+                    ro = fo.get(hk)
+                    if r[0] != "ok" or (ro and ro[0] != "ok"):
+                        if (r[0] == "ok") != (ro is not None and ro[0] == "ok"):
+                            ctx.violation("file_api_backend_dependent", f"dump()/load() through a text handle ({hk}): orjson backend "
+                                          f"{r[0]} ({str(r[1])[:80]}), stdlib backend {ro and ro[0]} ({str(ro and ro[1])[:80]})", case)
+                        continue
+                    if tagged(r[1][1]) != tv or tagged(ro[1][1]) != tv:
+                        ctx.violation("file_round_trip", f"dump() then load() through a text handle ({hk}) gave "
+                                      f"{r[1][1]!r} (orjson backend) / {ro[1][1]!r} (stdlib backend)", case)
+                    elif r[1][0] != ro[1][0] and tagged(fast_json_loads_bytes(r[1][0], hk)) != tagged(fast_json_loads_bytes(ro[1][0], hk)):
+                        ctx.violation("file_bytes_backend_dependent", f"the file written through a text handle ({hk}) holds "
+                                      f"{r[1][0][:60]!r} with the fast backend and {ro[1][0][:60]!r} without", case)
             shapes.append(first[b]["enc"][i][1] if first[b]["enc"][i][0] == "ok" else None)
         nontrivial = isinstance(v, (list, dict)) or (isinstance(v, str) and len(v) > 0) or isinstance(v, (int, float))
         ctx.record(case, shape=None, nontrivial=nontrivial,
